@@ -161,8 +161,26 @@ def narrowing_census(chk, facts):
                     continue
                 key = (re.sub(r"::\{closure#\d+\}", "", b.path), f"{frm}->{to}")
                 unproven.setdefault(key, []).append((b, st[3][0] if len(st) > 3 and st[3] else b.lo, r))
+    # allowances of confirmed entries that their function does not use on this tree (it was renamed, split, or the cast moved
+    # into a helper): per (crate, cast).  A function with more unproven casts than its own allowance may draw on them, so a
+    # rename inside the file is not an alarm; a genuinely new truncating cast has nothing to draw on.
+    slack = {}
+    for (fn, sig), (allowed, _why) in NARROWING_CONFIRMED.items():
+        unused = allowed - len(unproven.get((fn, sig), ()))
+        if unused > 0:
+            ck = (fn.lstrip("<").split("::", 1)[0], sig)
+            slack[ck] = slack.get(ck, 0) + unused
+    n_moved = 0
     for key, sites in sorted(unproven.items()):
         allowed, why = NARROWING_CONFIRMED.get(key, (0, None))
+        if len(sites) > allowed:
+            ck = (key[0].lstrip("<").split("::", 1)[0], key[1])
+            need = len(sites) - allowed
+            if slack.get(ck, 0) >= need:
+                slack[ck] -= need
+                n_moved += need
+                allowed = len(sites)
+                why = (why or "") + " (allowance of a confirmed site that moved within the file)"
         b = sites[0][0]
         chk.ob("C08-c", f"{key[0].split('::')[-1]}: {len(sites)} unproven `{key[1]}` cast(s) at line(s) {sorted(l for _, l, _ in sites)}"
                         + (f" -- confirmed: {why}" if why else ""), len(sites) <= allowed,
@@ -172,4 +190,5 @@ def narrowing_census(chk, facts):
                       f"become the same code point / glyph id")
     chk.stats["C08-c:narrowing_casts"] = n
     chk.stats["C08-c:proved_lossless"] = n_ok
+    chk.stats["C08-c:moved_within_file"] = n_moved
     chk.floor("C08-c", "narrowing casts in the character-map readers", n, 8)
